@@ -19,7 +19,11 @@ import (
 // accounting so that the other properties' assertions can go on being evaluated.
 func (s *vfSM) resync(vs []*vfViol) bool {
 	for _, v := range vs {
-		if v.Owner != "C03" || !strings.HasPrefix(v.Sig, "C03/remaining-cost") {
+		switch {
+		case v.Owner == "C03" && strings.HasPrefix(v.Sig, "C03/remaining-cost"):
+		case v.Owner == "C17": // metric counters are observers: nothing in the model depends on them
+		case v.Sig == "C13/capacity-held-by-nothing": // a consequence of the same accounting divergence
+		default:
 			return false
 		}
 	}
@@ -32,7 +36,11 @@ func (s *vfSM) resync(vs []*vfViol) bool {
 // fitsAlways: the configuration guarantees that all keys at their largest cost fit together
 // (C06's premise), so no eviction and no capacity rejection may ever happen.
 func (s *vfSM) fitsAlways() bool {
-	return s.cfg.MaxCost >= int64(s.cfg.Keys)*(vfRoomyMaxCost+itemSize)
+	per := int64(vfRoomyMaxCost)
+	if !s.cfg.IgnoreIntern {
+		per += itemSize
+	}
+	return s.cfg.MaxCost >= int64(s.cfg.Keys)*per
 }
 
 func (s *vfSM) peek(key uint64) (uint64, bool) { return s.c.storedItems.Get(key, 0) }
